@@ -1114,20 +1114,23 @@ func (x Expr) FirstFound(data any) (any, bool) {
 					}
 				}
 			default:
-				if v, has = reflectGetWildOne(tv); has {
-					if int(fi) == len(x)-1 { // last one
+				if int(fi) == len(x)-1 { // last one
+					if v, has = reflectGetWildOne(tv); has {
 						return v, true
 					}
-					switch v.(type) {
-					case nil, bool, string, float64, float32, gen.Bool, gen.Float, gen.String,
-						int, uint, int8, int16, int32, int64, uint8, uint16, uint32, uint64, gen.Int:
-					case map[string]any, []any, gen.Object, gen.Array, Keyed, Indexed:
-						stack = append(stack, v)
-					default:
-						if rt := reflect.TypeOf(v); rt != nil {
-							switch rt.Kind() {
-							case reflect.Ptr, reflect.Slice, reflect.Struct, reflect.Array, reflect.Map:
-								stack = append(stack, v)
+				} else {
+					for _, v = range reflectGetWild(tv) {
+						switch v.(type) {
+						case nil, bool, string, float64, float32, gen.Bool, gen.Float, gen.String,
+							int, uint, int8, int16, int32, int64, uint8, uint16, uint32, uint64, gen.Int:
+						case map[string]any, []any, gen.Object, gen.Array, Keyed, Indexed:
+							stack = append(stack, v)
+						default:
+							if rt := reflect.TypeOf(v); rt != nil {
+								switch rt.Kind() {
+								case reflect.Ptr, reflect.Slice, reflect.Struct, reflect.Array, reflect.Map:
+									stack = append(stack, v)
+								}
 							}
 						}
 					}
